@@ -171,6 +171,13 @@ def runQueue0 (_prop : String) (f : List String) (obsS : String) : Verdict :=
     let model := Queue0.modelRun hh (hops.zip refused)
     let ip := project _prop impl
     let mp := project _prop model
+    -- the property predicates, which are capacity-agnostic apart from the capacity clause (covered by `over`
+    -- above): run with "no limit"
+    let v := match v with
+      | some x => some x
+      | none => match ckHistory none hh {} hops impl with
+        | .ok _ => none
+        | .error e => some (e.prop, "capacity 0: " ++ e.clause)
     let tags := ["queue-capacity-0"] ++ (opTags hops model).map (· ++ "-cap0") ++
       (if model.any (fun o => match o.res with | .ok (some _) => true | _ => false) then ["accepted-cap0"] else [])
     ⟨ip == mp, ip, mp, v, tags, false⟩
